@@ -96,13 +96,17 @@ def long_cases():
     return out
 
 
-def relabel(pattern, D, inv_sigs, inv_insts):
+def relabel(pattern, D, inv_sigs, inv_insts, max_us=2, pairs=False):
     """yield designs with designer objects named like the invented names"""
     allinv = inv_sigs + inv_insts
     yield {"pattern": pattern, "target": "", "taken": [], "kind": "none", "order": "before", "D": copy.deepcopy(D)}     # the bare pattern
-    for target in allinv:
-        for extra_us in (0, 1, 2):
-            names = [target + "_" * k for k in range(extra_us + 1)]          # target, target_, target__ all taken
+    targets = list(allinv)
+    if pairs:
+        # thorough tier: two invented names taken at once
+        targets += [a + "+" + b for a, b in itertools.combinations(allinv, 2)]
+    for target in targets:
+        for extra_us in range(max_us + 1):
+            names = [t + "_" * k for t in target.split("+") for k in range(extra_us + 1)]          # target, target_, target__ all taken
             for kind in ("signal", "signal2", "instance", "bundle", "array"):
                 for order in ("before", "after"):
                     D2 = copy.deepcopy(D)
@@ -176,7 +180,7 @@ def run(tier, seed, replay_file=None):
     else:
         cases = []
         for pat, D, s, i in base_patterns():
-            cases += list(relabel(pat, D, s, i))
+            cases += list(relabel(pat, D, s, i, max_us=2 if tier == "quick" else 4, pairs=tier != "quick"))
         cases += long_cases()
     evs = pool_map(run_case, list(enumerate(cases)), chunksize=16)
     files = tlc.split_batches([[e] for e in evs], WORK / "c05", f"tr-{tier}", NPROC)
